@@ -81,7 +81,10 @@ def _worker(arg):
         _freeze_seams()
         ctx = core.Ctx(pid, tier, seed)
         mod.run_shard(shard, ctx)
-        return idx, ctx.export(), None, time.time() - t0
+        ex = ctx.export()
+        for v in ex['violations'].values():
+            v['shard_index'] = idx
+        return idx, ex, None, time.time() - t0
     except BaseException as e:  # noqa
         return idx, None, '%s\n%s' % (repr(e), traceback.format_exc()), time.time() - t0
 
@@ -95,6 +98,21 @@ def _replay_worker(arg):
         ctx.run_case(mod.check_case, case, run_sig)
         ex = ctx.export()
         return sorted(ex['violations'].keys()), ex['violations'], ctx.log, None
+    except BaseException as e:  # noqa
+        return None, None, None, '%s\n%s' % (repr(e), traceback.format_exc())
+
+
+def _shard_replay_worker(arg):
+    """Re-run one whole shard in a fresh process (for violations that depend on the history of
+    calls inside the shard, e.g. state leaking between objects or calls)."""
+    pid, tier, shard = arg
+    try:
+        mod = load(pid)
+        _freeze_seams()
+        ctx = core.Ctx(pid, tier, 0)
+        mod.run_shard(shard, ctx)
+        ex = ctx.export()
+        return sorted(ex['violations'].keys()), ex['violations'], [], None
     except BaseException as e:  # noqa
         return None, None, None, '%s\n%s' % (repr(e), traceback.format_exc())
 
@@ -145,7 +163,7 @@ def validate_evidence(path):
     except Exception as e:  # python3-vt missing
         return 'jsonschema unavailable (%s)' % type(e).__name__
     if r.returncode != 0:
-        raise core.HarnessError('evidence does not validate: %s' % r.stderr[-500:])
+        return 'INVALID: %s' % r.stderr[-300:]
     return 'validated with jsonschema'
 
 
@@ -195,6 +213,17 @@ def write_evidence(pid, tier, seed, mod, merged, wall, n_shards, known, unknown,
     with open(path, 'w') as f:
         json.dump(core.jsonable(ev), f, indent=1, sort_keys=True)
     ev['coverage']['schema_check'] = validate_evidence(path)
+    if ev['coverage']['schema_check'].startswith('INVALID'):
+        # an exploration that was cut short by violations may have no transitions: fall back to the
+        # generic counts rather than report invalid evidence
+        for k in ('states', 'transitions', 'traces_validated_against_impl'):
+            if not ev['coverage'].get(k):
+                ev['coverage'].pop(k, None)
+        with open(path, 'w') as f:
+            json.dump(core.jsonable(ev), f, indent=1, sort_keys=True)
+        ev['coverage']['schema_check'] = validate_evidence(path)
+        if ev['coverage']['schema_check'].startswith('INVALID') and not unknown:
+            raise core.HarnessError('evidence does not validate: %s' % ev['coverage']['schema_check'])
     return path, ev
 
 
@@ -262,9 +291,27 @@ def run(pid, tier, seed, workers):
                 rc = 2
                 continue
             if key not in a[0]:
-                print('UNREPRODUCIBLE property=%s signature=%s (replay gave %s)' % (pid, key, a[0][:3]))
-                rc = 2
-                continue
+                # not reproduced by the case alone: the violation may depend on what ran before it in
+                # the same process (shared state).  Re-run the whole shard twice in fresh processes.
+                sh = shards[rec['shard_index']]
+                with _pool(2) as pool2:
+                    sa, sb = pool2.map(_shard_replay_worker, [(pid, tier, sh)] * 2, chunksize=1)
+                if sa[3] or sb[3]:
+                    print('HARNESS-ERROR property=%s shard replay crashed\n%s' % (pid, sa[3] or sb[3]))
+                    rc = 2
+                    continue
+                if sa[0] != sb[0]:
+                    print('NONDETERMINISTIC property=%s signature=%s' % (pid, key))
+                    rc = 2
+                    continue
+                if key not in sa[0]:
+                    print('UNREPRODUCIBLE property=%s signature=%s (replay gave %s)' % (pid, key, a[0][:3]))
+                    rc = 2
+                    continue
+                rec['replay_mode'] = 'shard'
+                rec['shard'] = sh
+                rec['note'] = ('history-dependent: the case alone does not fail in a fresh process; it fails '
+                               'after the cases that precede it in its shard (state shared between calls/objects)')
             path = os.path.join(rdir, '%016x.json' % core.hkey(key))
             with open(path, 'w') as f:
                 json.dump(rec, f, indent=1, sort_keys=True)
@@ -309,8 +356,15 @@ def replay(pid, path, tier):
         rec = json.load(f)
     case = rec['case'] if 'case' in rec and 'signature' in rec else rec
     run_sig = rec.get('run_sig') if 'signature' in rec else None
-    with _pool(2) as pool:
-        a, b = pool.map(_replay_worker, [(pid, tier, case, run_sig)] * 2, chunksize=1)
+    if rec.get('replay_mode') == 'shard':
+        with _pool(2) as pool:
+            a, b = pool.map(_shard_replay_worker, [(pid, tier, rec['shard'])] * 2, chunksize=1)
+        if not (a[3] or b[3]):
+            want = core.dumps(rec['signature'])
+            a = (a[0], {k: v for k, v in a[1].items() if k == want}, a[2], a[3])
+    else:
+        with _pool(2) as pool:
+            a, b = pool.map(_replay_worker, [(pid, tier, case, run_sig)] * 2, chunksize=1)
     if a[3] or b[3]:
         print('HARNESS-ERROR\n%s' % (a[3] or b[3]))
         return 2
